@@ -107,7 +107,9 @@ claim("C08",
       "on the world model, Model/Game.v): C08_whole_game (whatever was played by however many agents in whatever interleaving, the "
       "reset task leaves exactly the pristine scenario world), C08_whole_game_static. Tie: correspondence on multi-episode walks "
       "with resets (tables compared with the model after every reset) and a monitor comparing the implementation's tables after "
-      "each reset with their initial condition (in the coordinator sessions also under dynamic addresses, read back through the "
+      "each reset with their initial condition; an episode replay probe plays one rich script (exploits, an exfiltration between two "
+      "hosts that both hold data, one to the outside host, a block) in four consecutive episodes, firewall on and off - same "
+      "observations every episode, live tables and pristine copies untouched after every reset (in the coordinator sessions also under dynamic addresses, read back through the "
       "published address map).", W_NOTE + " The theorems are for static addresses (dynamic re-labelling is C13).", W_TECH, "DESIGN.md section 7, C08")
 claim("C11",
       "Rocq theorems over all interleaved action sequences of any number of agents: C11_invariant (every view stays well-formed: "
